@@ -101,10 +101,18 @@ def gen_cases(tier, seed):
             continue
         ha, hb = r.randrange(24), r.randrange(24)
         ma, mb = r.choice([0, 15, 30, 45]), r.choice([0, 15, 30, 45])
+        # an end may be written without minutes ('12 uhr', "12 o'clock"); every third pair lies within one hour
+        fa, fb = r.choice(["hm", "hm", "uhr", "oclock"]), r.choice(["hm", "hm", "uhr", "oclock"])
+        if i % 3 == 1:
+            hb = ha
+        if fa != "hm":
+            ma = 0
+        if fb != "hm":
+            mb = 0
         if same_day and (ha, ma) == (hb, mb):
             continue
         cases.append({"k": "dtpair", "j": r.choice(["-", "to", "bis", "until"]), "a": a.isoformat(), "b": b.isoformat(), "ha": ha, "ma": ma, "hb": hb, "mb": mb,
-                      "ts": C.iso(refs[i % len(refs)])})
+                      "fa": fa, "fb": fb, "ts": C.iso(refs[i % len(refs)])})
     # half-open
     xs = []
     for i in range(60 if tier == "thorough" else 12):
@@ -207,8 +215,11 @@ def _dtpair(case, ctx, ts):
     a, b = date.fromisoformat(case["a"]), date.fromisoformat(case["b"])
     A = datetime(a.year, a.month, a.day, case["ha"], case["ma"])
     B = datetime(b.year, b.month, b.day, case["hb"], case["mb"])
-    fmt = lambda x: "%02d.%02d.%04d %d:%02d" % (x.day, x.month, x.year, x.hour, x.minute)
-    text = G.RANGE_JOIN[case["j"]].format(a=fmt(A), b=fmt(B))
+    def fmt(x, f):
+        clock = {"hm": "%d:%02d" % (x.hour, x.minute), "uhr": "%d uhr" % x.hour, "oclock": "%d o'clock" % x.hour}[f]
+        return "%02d.%02d.%04d %s" % (x.day, x.month, x.year, clock)
+    fa, fb = case.get("fa", "hm"), case.get("fb", "hm")
+    text = G.RANGE_JOIN[case["j"]].format(a=fmt(A, fa), b=fmt(B, fb))
     key = "dtpair|" + text
     ordered = A < B
     cls = "dtpair/%s/%s/%s" % (case["j"], "same-day" if a == b else "other-day", "ordered" if ordered else "reversed")
@@ -220,9 +231,12 @@ def _dtpair(case, ctx, ts):
     if not ordered:
         return C.ok(key, cls, nt=bool(ctx["mon"].case_rules), obs_={"text": text, "got": V.show(got)})
     exp = ("I", V.T(A.year, A.month, A.day, A.hour, A.minute), V.T(B.year, B.month, B.day, B.hour, B.minute))
-    if got == exp:
+    # an end written without minutes may leave the minute unspecified (read as :00, as in C06)
+    exps = [("I", V.T(A.year, A.month, A.day, A.hour, ma_), V.T(B.year, B.month, B.day, B.hour, mb_))
+            for ma_ in ([A.minute] if fa == "hm" else [0, None]) for mb_ in ([B.minute] if fb == "hm" else [0, None])]
+    if got in exps:
         return C.ok(key, cls, nt=True, obs_={"text": text, "got": V.show(got)})
-    return _fail(ctx, text, ts, lambda v: v == exp, "dtpair/%s" % ("same-day" if a == b else "other-day"),
+    return _fail(ctx, text, ts, lambda v: v in exps, "dtpair/%s" % ("same-day" if a == b else "other-day"),
                  "%r: expected %s, got %s via %s" % (text, V.show(exp), V.show(got), C.obs(r)), key, cls)
 
 
